@@ -38,24 +38,26 @@ variable [DecidableEq Id] [DecidableEq U] [DecidableEq M]
 variable (P : Pipe Rule Req Cfg Ex Id UId UT Core U M Dom)
 
 /-- the ids of a rule list are pairwise distinct -/
-def NodupIds (L : List Rule) : Prop := (L.map P.ruleId).Nodup
+def NodupIds (rid : Rule → Id) (L : List Rule) : Prop := (L.map rid).Nodup
 
-theorem NodupIds.nodup {L : List Rule} (h : NodupIds P L) : L.Nodup := by
+theorem NodupIds.nodup {rid : Rule → Id} {L : List Rule} (h : NodupIds rid L) : L.Nodup := by
   unfold NodupIds at h
   rw [List.Nodup, List.pairwise_map] at h
   exact h.imp (fun hab heq => hab (by rw [heq]))
 
-theorem NodupIds.perm {L L' : List Rule} (h : NodupIds P L) (hp : L.Perm L') : NodupIds P L' :=
-  (hp.map P.ruleId).nodup_iff.mp h
+theorem NodupIds.perm {rid : Rule → Id} {L L' : List Rule} (h : NodupIds rid L) (hp : L.Perm L') :
+    NodupIds rid L' :=
+  (hp.map rid).nodup_iff.mp h
 
-theorem NodupIds.filter {L : List Rule} (h : NodupIds P L) (p : Rule → Bool) : NodupIds P (L.filter p) := by
+theorem NodupIds.filter {rid : Rule → Id} {L : List Rule} (h : NodupIds rid L) (p : Rule → Bool) :
+    NodupIds rid (L.filter p) := by
   unfold NodupIds at *
   exact List.Nodup.sublist (List.Sublist.map _ List.filter_sublist) h
 
 /-- at most one live rule carries a given id -/
-theorem filter_id_length (L : List Rule) (h : NodupIds P L) (id : Id) :
+theorem filter_id_length (L : List Rule) (h : NodupIds P.ruleId L) (id : Id) :
     (L.filter (fun r => decide (P.ruleId r = id))).length ≤ 1 := by
-  have hn := NodupIds.filter P h (fun r => decide (P.ruleId r = id))
+  have hn := NodupIds.filter h (fun r => decide (P.ruleId r = id))
   have := nodup_const_length ((L.filter (fun r => decide (P.ruleId r = id))).map P.ruleId) id hn (by
     intro x hx
     simp only [List.mem_map, List.mem_filter, decide_eq_true_eq] at hx
@@ -63,7 +65,7 @@ theorem filter_id_length (L : List Rule) (h : NodupIds P L) (id : Id) :
     exact hr)
   simpa using this
 
-theorem filter_id_perm {L L' : List Rule} (hp : L.Perm L') (h : NodupIds P L) (id : Id) :
+theorem filter_id_perm {L L' : List Rule} (hp : L.Perm L') (h : NodupIds P.ruleId L) (id : Id) :
     L.filter (fun r => decide (P.ruleId r = id)) = L'.filter (fun r => decide (P.ruleId r = id)) :=
   perm_of_length_le_one (hp.filter _) (filter_id_length P L h id)
 
@@ -73,16 +75,16 @@ theorem filter_id_perm {L L' : List Rule} (hp : L.Perm L') (h : NodupIds P L) (i
 with distinct ids does not change it.  (For the real pipeline this is C11: `from_routes_rule` sorts the
 routes with the total order of `Rule::cmp` before it folds them.) -/
 structure PermInv : Prop where
-  evalTest : ∀ (R R' : List Rule) q e, R.Perm R' → NodupIds P R → P.evalTest R q e = P.evalTest R' q e
-  evalUnit : ∀ (R R' : List Rule) q e, R.Perm R' → NodupIds P R → P.evalUnit R q e = P.evalUnit R' q e
-  evalExplain : ∀ (R R' : List Rule) q e, R.Perm R' → NodupIds P R →
+  evalTest : ∀ (R R' : List Rule) q e, R.Perm R' → NodupIds P.ruleId R → P.evalTest R q e = P.evalTest R' q e
+  evalUnit : ∀ (R R' : List Rule) q e, R.Perm R' → NodupIds P.ruleId R → P.evalUnit R q e = P.evalUnit R' q e
+  evalExplain : ∀ (R R' : List Rule) q e, R.Perm R' → NodupIds P.ruleId R →
     P.evalExplain R q e = P.evalExplain R' q e
-  evalHop : ∀ (R R' : List Rule) q e, R.Perm R' → NodupIds P R → P.evalHop R q e = P.evalHop R' q e
+  evalHop : ∀ (R R' : List Rule) q e, R.Perm R' → NodupIds P.ruleId R → P.evalHop R q e = P.evalHop R' q e
 
 /-- The router reports every rule once: live ids and matched ids are pairwise distinct (C01). -/
 structure View.WF (S : View Rule Req Cfg Tr) : Prop where
-  routes : NodupIds P S.routes
-  matched : ∀ q, NodupIds P (S.matchReq q)
+  routes : NodupIds P.ruleId S.routes
+  matched : ∀ q, NodupIds P.ruleId (S.matchReq q)
 
 /-- `S ≈ S'`: same config, same live rules, same matched rules for every request (as sets: up to a
 permutation), and the same canonical projection of the traces. -/
@@ -521,12 +523,12 @@ end
 section
 variable {St Rule Req Cfg Tr C Ex Id UId UT Core U M Dom : Type}
 variable [DecidableEq Id] [DecidableEq U] [DecidableEq M]
-variable (A : Alg St Rule Req Cfg Tr Id) (P : Pipe Rule Req Cfg Ex Id UId UT Core U M Dom)
+variable (A : Alg St Rule Req Cfg Tr Id) (rid : Rule → Id)
 
 /-- every id is fresh at the moment it is inserted -/
 def FreshAll : List Rule → List Rule → Prop
   | [], _ => True
-  | r :: rs, L => P.ruleId r ∉ L.map P.ruleId ∧ FreshAll rs (r :: L)
+  | r :: rs, L => rid r ∉ L.map rid ∧ FreshAll rs (r :: L)
 
 /-- the live list after inserting `rs` one by one -/
 def insertAll (rs : List Rule) (L : List Rule) : List Rule := rs.foldl (fun L r => r :: L) L
@@ -535,16 +537,16 @@ def insertAll (rs : List Rule) (L : List Rule) : List Rule := rs.foldl (fun L r 
 leave, then the updated and the added rules enter (same definition as `Rio.Router.liveChangeSet`) -/
 def liveChangeSet (added updated : List Rule) (deleted : List Id) (L : List Rule) : List Rule :=
   insertAll added (insertAll updated
-    (L.filter (fun r => !(deleted ++ updated.map P.ruleId).contains (P.ruleId r))))
+    (L.filter (fun r => !(deleted ++ updated.map rid).contains (rid r))))
 
 /-- the change-set has consistent ids with respect to the live list -/
 def ValidChangeSet (D : ChangeSet Rule Id) (L : List Rule) : Prop :=
-  FreshAll P (D.updated ++ D.added)
-    (L.filter (fun r => !(D.deleted ++ D.updated.map P.ruleId).contains (P.ruleId r)))
+  FreshAll rid (D.updated ++ D.added)
+    (L.filter (fun r => !(D.deleted ++ D.updated.map rid).contains (rid r)))
 
 /-- `apply(B, D)` -/
 def ChangeSet.live (D : ChangeSet Rule Id) (L : List Rule) : List Rule :=
-  liveChangeSet P D.added D.updated D.deleted L
+  liveChangeSet rid D.added D.updated D.deleted L
 
 /-- The representation laws of a router algebra – the interface of W2's results (`Rio.C02.repr_*`,
 `Rio.Router.rrepr_match_perm`, `rrepr_nodup_match`, `rrepr_trace_perm`): a state *represents* a config and
@@ -553,24 +555,25 @@ set of rules answer every request alike. -/
 structure AlgLaws (canon : Tr → C) where
   Repr : St → Cfg → List Rule → Prop
   repr_empty : ∀ c, Repr (A.empty c) c []
-  repr_insert : ∀ S c L r, Repr S c L → P.ruleId r ∉ L.map P.ruleId → Repr (A.insert r S) c (r :: L)
+  repr_insert : ∀ S c L r, Repr S c L → rid r ∉ L.map rid → Repr (A.insert r S) c (r :: L)
   repr_remove : ∀ S c L id, Repr S c L →
-    Repr (A.remove id S) c (L.filter (fun r => decide (P.ruleId r ≠ id)))
-  repr_changeSet : ∀ S c L (D : ChangeSet Rule Id), Repr S c L → ValidChangeSet P D L →
-    Repr (A.applyChangeSet D.added D.updated D.deleted S) c (D.live P L)
-  nodup : ∀ S c L, Repr S c L → NodupIds P L
+    Repr (A.remove id S) c (L.filter (fun r => decide (rid r ≠ id)))
+  repr_changeSet : ∀ S c L (D : ChangeSet Rule Id), Repr S c L → ValidChangeSet rid D L →
+    Repr (A.applyChangeSet D.added D.updated D.deleted S) c (D.live rid L)
+  nodup : ∀ S c L, Repr S c L → NodupIds rid L
   config : ∀ S c L, Repr S c L → (A.view S).config = c
   routes : ∀ S c L, Repr S c L → ((A.view S).routes).Perm L
-  match_nodup : ∀ S c L, Repr S c L → ∀ q, NodupIds P ((A.view S).matchReq q)
+  match_nodup : ∀ S c L, Repr S c L → ∀ q, NodupIds rid ((A.view S).matchReq q)
   match_perm : ∀ S S' c L L', Repr S c L → Repr S' c L' → (∀ x, x ∈ L ↔ x ∈ L') →
     ∀ q, ((A.view S).matchReq q).Perm ((A.view S').matchReq q)
   trace_canon : ∀ S S' c L L', Repr S c L → Repr S' c L' → (∀ x, x ∈ L ↔ x ∈ L') →
     ∀ q, canon ((A.view S).trace q) = canon ((A.view S').trace q)
 
-variable {A P} {canon : Tr → C} (W : AlgLaws A P canon)
+variable {A rid} {canon : Tr → C} (W : AlgLaws A rid canon)
 
-theorem AlgLaws.wf {S : St} {c : Cfg} {L : List Rule} (h : W.Repr S c L) : View.WF P (A.view S) :=
-  ⟨NodupIds.perm P (W.nodup S c L h) (W.routes S c L h).symm, W.match_nodup S c L h⟩
+theorem AlgLaws.wf {P : Pipe Rule Req Cfg Ex Id UId UT Core U M Dom} (W : AlgLaws A P.ruleId canon)
+    {S : St} {c : Cfg} {L : List Rule} (h : W.Repr S c L) : View.WF P (A.view S) :=
+  ⟨NodupIds.perm (W.nodup S c L h) (W.routes S c L h).symm, W.match_nodup S c L h⟩
 
 /-- two states representing the same set of live rules have equivalent views -/
 theorem AlgLaws.equiv {S S' : St} {c : Cfg} {L L' : List Rule} (h : W.Repr S c L) (h' : W.Repr S' c L')
@@ -578,12 +581,12 @@ theorem AlgLaws.equiv {S S' : St} {c : Cfg} {L L' : List Rule} (h : W.Repr S c L
   refine ⟨?_, ?_, W.match_perm S S' c L L' h h' hm, W.trace_canon S S' c L L' h h' hm⟩
   · rw [W.config S c L h, W.config S' c L' h']
   · have hLL' : L.Perm L' :=
-      (List.perm_ext_iff_of_nodup (NodupIds.nodup P (W.nodup S c L h))
-        (NodupIds.nodup P (W.nodup S' c L' h'))).mpr hm
+      (List.perm_ext_iff_of_nodup (NodupIds.nodup (W.nodup S c L h))
+        (NodupIds.nodup (W.nodup S' c L' h'))).mpr hm
     exact (W.routes S c L h).trans (hLL'.trans (W.routes S' c L' h').symm)
 
 theorem repr_foldl_insert (rules : List Rule) : ∀ (S : St) (c : Cfg) (L : List Rule), W.Repr S c L →
-    NodupIds P (rules.reverse ++ L) →
+    NodupIds rid (rules.reverse ++ L) →
     W.Repr (rules.foldl (fun S r => A.insert r S) S) c (rules.reverse ++ L) := by
   induction rules with
   | nil => intro S c L h _; simpa using h
@@ -599,17 +602,17 @@ theorem repr_foldl_insert (rules : List Rule) : ∀ (S : St) (c : Cfg) (L : List
     exact this.1
 
 /-- a router filled rule by rule represents the rule list (in reverse order of insertion) -/
-theorem repr_build (c : Cfg) (rules : List Rule) (hn : NodupIds P rules) :
+theorem repr_build (c : Cfg) (rules : List Rule) (hn : NodupIds rid rules) :
     W.Repr (A.build c rules) c rules.reverse := by
   have := repr_foldl_insert W rules (A.empty c) c [] (W.repr_empty c) (by
-    simpa using NodupIds.perm P hn (List.reverse_perm rules).symm)
+    simpa using NodupIds.perm hn (List.reverse_perm rules).symm)
   simpa [Alg.build] using this
 
 /-- the router of the project entry points of test-examples / explain represents `apply(B, D)` up to the
 order (when the change-set is empty the existing router is used as it is) -/
 theorem repr_projectRouter (base : St) (c : Cfg) (B : List Rule) (D : ChangeSet Rule Id)
-    (h : W.Repr base c B) (hv : ValidChangeSet P D B) :
-    ∃ L, W.Repr (A.projectRouter D base) c L ∧ ∀ x, x ∈ L ↔ x ∈ D.live P B := by
+    (h : W.Repr base c B) (hv : ValidChangeSet rid D B) :
+    ∃ L, W.Repr (A.projectRouter D base) c L ∧ ∀ x, x ∈ L ↔ x ∈ D.live rid B := by
   unfold Alg.projectRouter
   by_cases he : D.isEmpty = true
   · refine ⟨B, by simpa [he] using h, ?_⟩
@@ -617,7 +620,7 @@ theorem repr_projectRouter (base : St) (c : Cfg) (B : List Rule) (D : ChangeSet 
     obtain ⟨⟨ha, hu⟩, hd⟩ := he
     intro x
     simp [ChangeSet.live, liveChangeSet, insertAll, ha, hu, hd]
-  · refine ⟨D.live P B, ?_, fun _ => Iff.rfl⟩
+  · refine ⟨D.live rid B, ?_, fun _ => Iff.rfl⟩
     simp only [he, Bool.false_eq_true, if_false]
     exact W.repr_changeSet base c B D h hv
 
